@@ -1,5 +1,8 @@
 (* Proofs/SettingsSim.v - C19: the reference-heap model refines the value model as long as every
-   field is deep-copied by Clone (table = deep_tbl) and no jar is installed without a factory. *)
+   field is deep-copied by Clone (table = deep_tbl) and no jar is installed without a factory.
+   Invariant: every heap cell carries an owner tag (object, field); an object's references point
+   to cells tagged with that object and field; an operation on object id changes only cells
+   tagged with id (frame), so every other object reads exactly what it read before. *)
 From Coq Require Import List Arith Bool Lia.
 From ReqV Require Import Model.Settings Proofs.SettingsHeap Proofs.SettingsValue.
 Import ListNotations.
@@ -56,7 +59,7 @@ Qed.
 Definition WAid (id : oid) (t : atag) : Prop := fst t = id.
 Definition WMid (id : oid) (t : mtag) : Prop := fst t = id.
 Definition WOid (id x : oid) : Prop := x = id.
-Definition idframe (id : oid) := hframe (WAid id) (WMid id) (WOid id) (WOid id).
+Definition idframe (id : oid) := hframe (WAid id) (WMid id) (WOid id) (WMid id).
 Definition noframe := hframe (fun _ => False) (fun _ => False) (fun _ => False) (fun _ => False).
 
 Lemma noframe_idframe id H ow H' : noframe H ow H' -> idframe id H ow H'.
@@ -86,7 +89,7 @@ Lemma get_retry_spec H ow id o H1 o1 r :
     rt_ok (arrs H) (recs H1) (owA ow) (owR ow ++ eR) id (Some r) /\
     rt_view (arrs H) (recs H1) (Some r) = rt_view (arrs H) (recs H) (o_rt o).
 Proof.
-  intros (La & Lm & Lr & Lj) [O1 O2 O3 O4] G. unfold get_retry in G.
+  intros (La & Lm & Lr & Lj) [O1 O2 O3 O4 O5] G. unfold get_retry in G.
   destruct (o_rt o) as [a|] eqn:E.
   - inversion G; subst. exists []. rewrite app_nil_r. simpl in O3. destruct O3 as (T & C & K).
     repeat split; auto.
@@ -99,21 +102,19 @@ Proof.
     + rewrite <- Lr. apply nth_error_app_new.
 Qed.
 
-Definition setter_ok (s : setter) : Prop := s <> SJarPlain.
-
 Lemma lens_ext_nil H ow : lens H ow -> lens H (ext ow [] [] [] []).
 Proof. unfold lens, ext; simpl. now rewrite !app_nil_r. Qed.
 
 Lemma obj_ok_ext_nil H ow id o : obj_ok H ow id o -> obj_ok H (ext ow [] [] [] []) id o.
-Proof. intros [A B C D]. constructor; unfold ext; simpl; now rewrite ?app_nil_r. Qed.
+Proof. intros [A B C D E]. constructor; unfold ext; simpl; now rewrite ?app_nil_r. Qed.
 
 Lemma idframe_refl id H ow : idframe id H ow H.
 Proof. repeat split; auto. Qed.
 
-Lemma vobj_eq a b c d e f g h i a' b' c' g' :
-  a = a' -> b = b' -> c = c' -> g = g' ->
-  {| v_sl := a; v_mp := b; v_rt := c; v_chain := d; v_tchain := e; v_scal := f; v_jar := g; v_fact := h; v_par := i |} =
-  {| v_sl := a'; v_mp := b'; v_rt := c'; v_chain := d; v_tchain := e; v_scal := f; v_jar := g'; v_fact := h; v_par := i |}.
+Lemma vobj_eq a b c d e f g h i x a' b' c' g' x' :
+  a = a' -> b = b' -> c = c' -> g = g' -> x = x' ->
+  {| v_sl := a; v_mp := b; v_rt := c; v_chain := d; v_tchain := e; v_scal := f; v_jar := g; v_fact := h; v_par := i; v_ext := x |} =
+  {| v_sl := a'; v_mp := b'; v_rt := c'; v_chain := d; v_tchain := e; v_scal := f; v_jar := g'; v_fact := h; v_par := i; v_ext := x' |}.
 Proof. intros; subst; reflexivity. Qed.
 
 (* ---- a heap update that only touches the arrays tagged (id, KSl f) ---- *)
@@ -125,7 +126,7 @@ Lemma sim_sl_field H ow id o f A' s' e rd :
   lens H' (ext ow e [] [] []) /\ idframe id H ow H' /\ obj_ok H' (ext ow e [] [] []) id o' /\
   abs_obj H' o' = vset_sl (abs_obj H o) (upd_nth f rd (v_sl (abs_obj H o))).
 Proof.
-  intros (La & Lm & Lr & Lj) [O1 O2 O3 O4] L Ok Rd F H' o'.
+  intros (La & Lm & Lr & Lj) [O1 O2 O3 O4 O5] L Ok Rd F H' o'.
   destruct (comp_sl_upd _ _ _ e _ _ _ _ O1 F Ok) as [C1 E1].
   destruct (rt_ok_frame _ _ _ _ A' (recs H) e [] (eq (id, KSl f)) (fun _ => False) _ _ O3 F (frame_refl _ _ _ _)) as [C3 E3];
     try (intros E; inversion E; fail); auto.
@@ -145,7 +146,7 @@ Lemma sim_mp_field H ow id o f M' m' e rd :
   lens H' (ext ow [] e [] []) /\ idframe id H ow H' /\ obj_ok H' (ext ow [] e [] []) id o' /\
   abs_obj H' o' = vset_mp (abs_obj H o) (upd_nth f rd (v_mp (abs_obj H o))).
 Proof.
-  intros (La & Lm & Lr & Lj) [O1 O2 O3 O4] L Ok Rd F H' o'.
+  intros (La & Lm & Lr & Lj) [O1 O2 O3 O4 O5] L Ok Rd F H' o'.
   destruct (comp_mp_upd _ _ _ e _ _ _ _ O2 F Ok) as [C1 E1].
   split; [|split; [|split]].
   - unfold lens, ext; simpl. rewrite !app_nil_r. auto.
@@ -166,7 +167,7 @@ Lemma sim_rt H ow id o A' R' eA eR r vr :
   lens H' (ext ow eA [] eR []) /\ idframe id H ow H' /\ obj_ok H' (ext ow eA [] eR []) id o' /\
   abs_obj H' o' = vset_rt (abs_obj H o) vr.
 Proof.
-  intros (La & Lm & Lr & Lj) [O1 O2 O3 O4] L1 L2 FA FR Ok Rd H' o'.
+  intros (La & Lm & Lr & Lj) [O1 O2 O3 O4 O5] L1 L2 FA FR Ok Rd H' o'.
   destruct (comp_sl_frame _ _ _ eA _ _ _ O1 FA) as [C1 E1].
   { intros i [E|E]; inversion E. }
   split; [|split; [|split]].
